@@ -248,12 +248,45 @@ def module_digest():
         h = hashlib.blake2b(digest_size=16)
         for k in sorted(vars(mod)):
             v = vars(mod)[k]
-            if k.startswith("__") or inspect.ismodule(v) or \
-                    inspect.isclass(v) or inspect.isroutine(v):
+            if k.startswith("__") or inspect.ismodule(v):
+                continue
+            if inspect.isclass(v):
+                # data attributes kept on a class of this module (a table
+                # shared by all calls), and the default values of its methods
+                if getattr(v, "__module__", None) != name:
+                    continue
+                for ak in sorted(vars(v)):
+                    av = vars(v)[ak]
+                    f = av.__func__ if isinstance(
+                        av, (staticmethod, classmethod)) else av
+                    if inspect.isroutine(f):
+                        d = getattr(f, "__defaults__", None)
+                        if d:
+                            h.update((k + "." + ak + ".defaults").encode())
+                            h.update(repr(snap(list(d))).encode())
+                        continue
+                    if ak.startswith("__") or isinstance(av, property):
+                        continue
+                    h.update((k + "." + ak).encode())
+                    h.update(repr(snap(av)).encode())
+                continue
+            if inspect.isroutine(v):
+                d = getattr(v, "__defaults__", None)
+                if d and getattr(v, "__module__", None) == name:
+                    h.update((k + ".defaults").encode())
+                    h.update(repr(snap(list(d))).encode())
                 continue
             h.update(k.encode())
             h.update(repr(snap(v)).encode())
         out[name] = h.hexdigest()
+    # tables of the standard library a calendar routine may be tempted to
+    # borrow (and patch)
+    import calendar
+    h = hashlib.blake2b(digest_size=16)
+    h.update(repr((list(calendar.mdays), list(calendar.month_name),
+                   list(calendar.month_abbr), list(calendar.day_name))
+                  ).encode())
+    out["stdlib.calendar"] = h.hexdigest()
     return out
 
 
@@ -1723,6 +1756,12 @@ def case_copies(mon, seedval):
         v1 = look(c, 1.5)
         ok1 = v1 == v0
         w0 = look(i, 5.5)
+        # (set() followed by set_tolerance() are two successful calls: the
+        # object answers afterwards)
+        mon.check("total-on-domain", w0[0] != "raised",
+                  {"target": "Interpolation.Interpolation.__call__",
+                   "after": "set([5, 6, 7], [1, 4, 9]); set_tolerance(1e-3)",
+                   "at": 5.5, "answer": repr(w0)})
         c.set([0.0, 1.0], [0.0, 1.0])
         c.set_tolerance(1e-2)
         w1 = look(i, 5.5)
